@@ -45,7 +45,10 @@ impl C15 {
         let depth = if thorough { 4 } else { 3 };
         let db_order = if thorough { 4 } else { 3 };
         let mut fams = Fams::default();
-        fams.add("all histories to the depth bound x flag", vec![2, (ALPHA.len() as u64).pow(depth as u32)]);
+        fams.add("all histories to the depth bound, flag on", vec![1, (ALPHA.len() as u64).pow(depth as u32)]);
+        // with the feature off nothing may ever be stored: one level shallower in the quick tier
+        let d_off = if thorough { depth } else { depth - 1 };
+        fams.add("all histories, flag off", vec![1, (ALPHA.len() as u64).pow(d_off as u32)]);
         fams.add("de Bruijn sequence on one long-lived context x flag", vec![2]);
         C15 { fams, depth, db_order, pristine: Lazy::new(), reg_hash: Lazy::new() }
     }
@@ -188,6 +191,19 @@ impl<'a> Stepper<'a> {
     }
 }
 
+impl C15 {
+    fn hist_depth(&self, fam: usize) -> usize {
+        let n = self.fams.fams[fam].1[1];
+        let mut d = 0;
+        let mut x = 1u64;
+        while x < n {
+            x *= ALPHA.len() as u64;
+            d += 1;
+        }
+        d
+    }
+}
+
 impl Space for C15 {
     fn meta(&self) -> Meta {
         Meta {
@@ -207,9 +223,9 @@ impl Space for C15 {
     }
     fn describe(&self, idx: u64) -> String {
         let (f, d) = self.fams.locate(idx);
-        if f == 0 {
-            let letters = decode(d[1], &vec![ALPHA.len() as u64; self.depth as usize]);
-            format!("flag {}: {}", d[0] == 1, letters.iter().map(|i| ALPHA[*i as usize].0).collect::<Vec<_>>().join(" ; "))
+        if f < 2 {
+            let letters = decode(d[1], &vec![ALPHA.len() as u64; self.hist_depth(f)]);
+            format!("flag {}: {}", f == 0, letters.iter().map(|i| ALPHA[*i as usize].0).collect::<Vec<_>>().join(" ; "))
         } else {
             format!("flag {}: de Bruijn sequence B(16,{}) on one context", d[0] == 1, self.db_order)
         }
@@ -237,14 +253,15 @@ impl Space for C15 {
     }
     fn run(&mut self, idx: u64) -> CaseOut {
         let (f, d) = self.fams.locate(idx);
-        let flag = d[0] == 1;
+        let flag = if f < 2 { f == 0 } else { d[0] == 1 };
+        let hist_depth = if f < 2 { self.hist_depth(f) } else { 0 };
         let thorough = self.depth >= 4;
         let ref_hash = *self.reg_hash.get(|| hash64(&format!("{:?}", fresh_ctx().registry)));
         let p = self.pristine.get(fresh_ctx);
         let mut st = Stepper::new(p, flag);
         let mut full = 0u64;
-        if f == 0 {
-            let letters = decode(d[1], &vec![ALPHA.len() as u64; self.depth as usize]);
+        if f < 2 {
+            let letters = decode(d[1], &vec![ALPHA.len() as u64; hist_depth]);
             for l in letters {
                 st.step(l as usize);
             }
@@ -273,7 +290,7 @@ impl Space for C15 {
                 st.bad.push(("database changed by a query (full dump)".into(), "end of de Bruijn run".to_string()));
             }
         }
-        let mut out = CaseOut::ok(if f == 0 { "history" } else { "de Bruijn run" });
+        let mut out = CaseOut::ok(if f < 2 { "history" } else { "de Bruijn run" });
         out.keys = st.states.clone();
         out = out.count("transitions", st.transitions).count("histories", 1).count("full_dumps", full);
         // one report per distinct signature per history
